@@ -731,19 +731,17 @@ func (l *lexer) lexHeredoc() action {
 // scanHeredoc reads the pending here-documents. It returns false when
 // lexing cannot continue (error, or end of input).
 func (l *lexer) scanHeredoc() bool {
-	find := func(r *ast.Redir, delim string, eof bool) bool {
+	find := func(r *ast.Redir, delim string) bool {
 		// the line that has just been read, line continuations
 		// included, begins at the earliest part after the last
 		// <newline> (positions do not tell: they stand still inside
 		// the text of an alias)
 		start, line := -1, ""
-		if !eof {
-			// an empty line
-			if n := len(l.word); n == 0 {
-				start = 0
-			} else if w, ok := l.word[n-1].(*ast.Lit); ok && strings.HasSuffix(w.Value, "\n") {
-				start = n
-			}
+		// an empty line
+		if n := len(l.word); n == 0 {
+			start = 0
+		} else if w, ok := l.word[n-1].(*ast.Lit); ok && strings.HasSuffix(w.Value, "\n") {
+			start = n
 		}
 		for i := len(l.word) - 1; i >= 0; i-- {
 			s := l.print(l.word[i:])
@@ -794,7 +792,7 @@ func (l *lexer) scanHeredoc() bool {
 			r, err := l.read()
 			if err != nil {
 				if !l.heredoc.exists() {
-					if l.lit(); find(h, delim, true) {
+					if l.lit(); find(h, delim) {
 						return false
 					}
 				}
@@ -804,7 +802,7 @@ func (l *lexer) scanHeredoc() bool {
 			switch {
 			case r == '\n':
 				// <newline>
-				if l.lit(); find(h, delim, false) {
+				if l.lit(); find(h, delim) {
 					break Heredoc
 				}
 				// store <newline>
